@@ -27,6 +27,11 @@ func VerifSetBudget(n int64) { verifBudget = n; verifTicks = 0 }
 // VerifTicks returns the number of instructions dispatched since the last VerifSetBudget.
 func VerifTicks() int64 { return verifTicks }
 
+// verifSizeLimit bounds the size of the value on top of the operand stack (string bytes, slice elements, the
+// length operand of make) while a budget is active, so that a script that doubles a string in a loop ends with
+// the budget error instead of exhausting the host's memory.
+var verifSizeLimit = 1 << 24
+
 func (v *VM) verifTick() {
 	verifTicks++
 	if verifBudget < 0 {
@@ -36,6 +41,26 @@ func (v *VM) verifTick() {
 		panic(VerifBudgetMsg)
 	}
 	verifBudget--
+	if n := len(v.stack); n > 0 {
+		top := v.stack[n-1]
+		switch x := top.value.(type) {
+		case stringT:
+			if len(x) > verifSizeLimit {
+				verifBudget = 0
+				panic(VerifBudgetMsg + " (value size)")
+			}
+		case *sliceT:
+			if len(x.data) > verifSizeLimit {
+				verifBudget = 0
+				panic(VerifBudgetMsg + " (value size)")
+			}
+		case nil:
+			if v.frame.Codes[v.frame.N].Code == codeMake && top.num > float64(verifSizeLimit) {
+				verifBudget = 0
+				panic(VerifBudgetMsg + " (value size)")
+			}
+		}
+	}
 }
 
 // VerifInstr is an exported copy of one compiled instruction.
